@@ -95,7 +95,14 @@ func runStream(payload []*Sx) *Sx {
 		failAt = int(mustInt64(payload[2].List[1].Atom))
 	}
 	ewd := payload[3].List[1].Atom == "1"
-	failErr := errors.New("scripted reader failure")
+	// a reader fails with whatever error its source has: a plain one, one that a truncated stream reports (io.ErrUnexpectedEOF), one that
+	// WRAPS io.EOF (a dropped connection) - none of them is the clean end of the input
+	failErrs := []error{errors.New("scripted reader failure"), fmt.Errorf("scripted reader failure: %w", io.ErrUnexpectedEOF),
+		fmt.Errorf("scripted reader failure: %w", io.EOF), fmt.Errorf("%w (scripted reader failure)", io.ErrUnexpectedEOF)}
+	failErr := failErrs[0]
+	if failAt >= 0 {
+		failErr = failErrs[(failAt+len(doc))%len(failErrs)]
+	}
 	// whole-slice reference
 	var whole *Sx
 	wl, werr := cedar.NewPolicyListFromBytes("", doc)
@@ -226,7 +233,8 @@ func init() { kinds["tokens"] = runTokens }
 // tokens: <doc> (sched (n fail)...) (ewd 0|1)  ->  (ok (t type off line col text)...) | (error)
 func runTokens(payload []*Sx) *Sx {
 	doc := []byte(payload[0].Str())
-	rd := &modelReader{rest: doc, ewd: payload[2].List[1].Atom == "1", err: errors.New("scripted reader failure"), mode: "sticky"}
+	terrs := []error{errors.New("scripted reader failure"), fmt.Errorf("scripted reader failure: %w", io.ErrUnexpectedEOF), fmt.Errorf("scripted reader failure: %w", io.EOF)}
+	rd := &modelReader{rest: doc, ewd: payload[2].List[1].Atom == "1", err: terrs[len(doc)%len(terrs)], mode: "sticky"}
 	if len(payload) > 3 {
 		rd.mode = payload[3].List[1].Atom
 	}
